@@ -273,16 +273,28 @@ class FSelector:
 
 
 class YLock:
-    def __init__(self, world):
+    """stands for the lock the worker creates - threading.RLock, or threading.Lock if that is what the module uses.  A thread
+    that takes a plain Lock it already holds would block for ever: that is recorded as an anomaly and the thread is aborted."""
+
+    def __init__(self, world, reentrant=True):
         self.world = world
+        self.reentrant = reentrant
         self.lock = threading.RLock()
+        self.depth = {}
 
     def __enter__(self):
         self.world.sched.park("lock")
+        me = threading.get_ident()
+        if not self.reentrant and self.depth.get(me, 0) > 0:
+            self.world.anomalies.append(("self-deadlock: a thread takes the worker's (non re-entrant) lock while holding it", -1))
+            raise RuntimeError("self-deadlock on the worker's lock")
         self.lock.acquire()
+        self.depth[me] = self.depth.get(me, 0) + 1
         return self
 
     def __exit__(self, *a):
+        me = threading.get_ident()
+        self.depth[me] = self.depth.get(me, 0) - 1
         self.lock.release()
 
 
@@ -420,9 +432,13 @@ class World:
         cfg.set("graceful_timeout", 1)
         self.cfg = cfg
         self.listeners = [FListener(self, i) for i in range(nlisteners)]
-        self.saved = (gt.selectors, gt.RLock, gt.futures, gt.time)
+        # (the lock class is patched under whichever name the module imported it)
+        self.saved = (gt.selectors, getattr(gt, "RLock", None), gt.futures, gt.time, getattr(gt, "Lock", None))
         gt.selectors = SelectorsProxy(self)
-        gt.RLock = lambda: YLock(self)
+        if self.saved[1] is not None:
+            gt.RLock = lambda: YLock(self)
+        if self.saved[4] is not None:
+            gt.Lock = lambda: YLock(self, reentrant=False)
         gt.futures = FuturesProxy(self)
         gt.time = TimeProxy(self)
         try:
@@ -447,7 +463,11 @@ class World:
     def close(self):
         gt = self.gt
         self.sched.stop_all()
-        gt.selectors, gt.RLock, gt.futures, gt.time = self.saved
+        gt.selectors, gt.futures, gt.time = self.saved[0], self.saved[2], self.saved[3]
+        if self.saved[1] is not None:
+            gt.RLock = self.saved[1]
+        if self.saved[4] is not None:
+            gt.Lock = self.saved[4]
         try:
             self.worker.tmp.close()
         except Exception:
